@@ -141,6 +141,36 @@ def builders(model):
     B['ProductSpaceOperator[[P2, P3], [0, P2]]'] = lambda I: inst(
         I, 'ProductSpaceOperator', [[pw(I), pw(I, 'const', 3)],
                                     [0, pw(I)]])
+    # affine finite-difference operators (constant padding with a non-zero
+    # constant) and arithmetic on them: alias-unsafe non-linear operators
+    # whose domain equals their range
+    from .c13b import D
+    cpad = dict(pad_mode='constant', pad_const=Rat.var('pc'))
+    for m in ('forward', 'backward', 'central'):
+        B['PartialDerivative[%s,constant,pad_const=c]' % m] = (
+            lambda I, m=m: inst(I, 'PartialDerivative', D(), 1, method=m,
+                                **cpad))
+        B['Gradient[%s,constant,pad_const=c]' % m] = (
+            lambda I, m=m: inst(I, 'Gradient', D(), method=m, **cpad))
+        B['Divergence[%s,constant,pad_const=c]' % m] = (
+            lambda I, m=m: inst(I, 'Divergence', range=D(), method=m,
+                                **cpad))
+    B['Laplacian[constant,pad_const=c]'] = lambda I: inst(
+        I, 'Laplacian', D(), **cpad)
+    B['expr:PartialDerivative[constant,pad_const=c] * a'] = (
+        lambda I: I.binop(ast.Mult, inst(I, 'PartialDerivative', D(), 0,
+                                         **cpad), Rat.var('a')))
+    B['expr:a * Laplacian[constant,pad_const=c]'] = (
+        lambda I: I.binop(ast.Mult, Rat.var('a'), inst(
+            I, 'Laplacian', D(), **cpad)))
+    B['expr:Laplacian[constant,pad_const=c] * a + PartialDerivative'] = (
+        lambda I: I.binop(ast.Add, I.binop(ast.Mult, inst(
+            I, 'Laplacian', D(), **cpad), Rat.var('a')), inst(
+                I, 'PartialDerivative', D(), 0)))
+    B['expr:PartialDerivative[constant,pad_const=c] o (Laplacian * a)'] = (
+        lambda I: I.binop(ast.Mult, inst(
+            I, 'PartialDerivative', D(), 1, **cpad), I.binop(
+                ast.Mult, inst(I, 'Laplacian', D(), **cpad), Rat.var('a'))))
     # functionals are operators into the field: their derivative(x)(d) is
     # decided on the instances of the C09 tier as well
     from . import c09b
